@@ -9,7 +9,7 @@
    operands are snapshotted before/after every call and the package-level tables and constants are
    snapshotted through the verif hook before/after whole histories of calls. *)
 From Coq Require Import ZArith Bool List.
-From Apd Require Import Generated.Consts Model.Base Model.NumDigits Model.Decimal Model.Context Imp.Mem Imp.Ops Imp.AliasProofs Imp.CtxOps Imp.CtxProofs Imp.CtxMulProofs Imp.CtxFootprints2.
+From Apd Require Import Generated.Consts Model.Base Model.NumDigits Model.Decimal Model.Context Imp.Mem Imp.Ops Imp.AliasProofs Imp.CtxOps Imp.CtxProofs Imp.CtxMulProofs Imp.CtxFootprints2 Imp.CtxOps2 Imp.CtxQuantReduceProofs.
 Open Scope Z_scope.
 
 Theorem C06_set_writes_destination_only d x : wr_within (only_obj d) (set_imp d x).
@@ -53,6 +53,17 @@ Theorem C06_context_rem_quo_integer_footprints est c d x y :
   wr_within (only_obj d) (quo_integer_imp est c d x y) /\ rd_within (only_objs [d; x; y]) (quo_integer_imp est c d x y).
 Proof. exact (conj (rem_imp_ww est c d x y) (conj (rem_imp_reads est c d x y) (conj (quo_integer_imp_ww est c d x y) (quo_integer_imp_reads est c d x y)))). Qed.
 Print Assumptions C06_context_rem_quo_integer_footprints.
+
+Theorem C06_context_quantize_reduce_footprints est c e d x :
+  wr_within (only_obj d) (quantize_imp est c e d x) /\ rd_within (only_objs [d; x]) (quantize_imp est c e d x) /\
+  wr_within (only_obj d) (reduce_imp est c d x) /\ rd_within (only_objs [d; x]) (reduce_imp est c d x).
+Proof. exact (conj (quantize_imp_ww est c e d x) (conj (quantize_imp_reads est c e d x) (conj (reduce_imp_ww est c d x) (reduce_imp_reads est c d x)))). Qed.
+Print Assumptions C06_context_quantize_reduce_footprints.
+
+Theorem C06_context_quo_footprint est c d x y :
+  wr_within (only_obj d) (quo_imp est c d x y) /\ rd_within (only_objs [d; x; y]) (quo_imp est c d x y).
+Proof. exact (conj (quo_imp_ww est c d x y) (quo_imp_reads est c d x y)). Qed.
+Print Assumptions C06_context_quo_footprint.
 
 (* independence of the destination's previous contents and preservation of the others, as one statement
    (from C05_modf): two initial memories that agree on the receiver give the same outputs *)
